@@ -80,10 +80,7 @@ def rule_ffi(chk, eng):
 # ----------------------------------------------------------------------------
 # rule 1: length agreement
 # ----------------------------------------------------------------------------
-NOT_MODELLED = {
-    # class -> why the length interpreter does not model it (recorded, not silently passed)
-    "SDMXFullSettings": "feature counts are sums over a settings dict driven through generator methods",
-}
+NOT_MODELLED = {}  # class -> why the length interpreter does not model it (recorded, not silently passed)
 
 
 def _is_stub(fn):
@@ -707,10 +704,10 @@ def rule_guards(chk, eng, prog):
         if not chk.tree.exists(rel):
             raise core.AnalysisError("guard table: module %s vanished" % rel)
         have = set(cur.get(key, []))
-        if key not in cur:
-            found = any(isinstance(n, ast.FunctionDef) and pf.qualname(n) == qual for n in ast.walk(chk.tree.py(rel)))
-            if not found:
-                raise core.AnalysisError("guard table: function %s vanished from %s" % (qual, rel))
+        fdef = [n for n in ast.walk(chk.tree.py(rel)) if isinstance(n, ast.FunctionDef) and pf.qualname(n) == qual]
+        if not fdef:
+            raise core.AnalysisError("guard table: function %s vanished from %s" % (qual, rel))
+        fline = fdef[0].lineno
         for sig in want:
             inst = "%s %s" % (key, sig)
             if sig in have:
@@ -719,14 +716,14 @@ def rule_guards(chk, eng, prog):
             ident, kind = sig.split(":", 1) if not sig.startswith(("c:", "p:")) else \
                 (sig[: sig.index(":", 2)], sig[sig.index(":", 2) + 1:])
             if ident == "rel":
-                chk.violation("guards", rel, qual, "guard %s" % sig, 0,
+                chk.violation("guards", rel, qual, "guard %s" % sig, fline,
                               "on the pinned tree every path to the native call guaranteed the relation `%s` between "
                               "the integer arguments it passes (callee#position); no assert / raising test on every "
                               "path implies it any more" % kind, instance=inst)
                 continue
             what = ("the array passed as argument %s of %s" % (ident[2:].split("#")[1], ident[2:].split("#")[0])
                     if ident.startswith("c:") else "parameter `%s`" % ident[2:] if ident.startswith("p:") else ident)
-            chk.violation("guards", rel, qual, "guard %s" % sig, 0,
+            chk.violation("guards", rel, qual, "guard %s" % sig, fline,
                           "on the pinned tree every path to the %s guaranteed a %s check on %s (assert, raising test, "
                           "normalising re-binding, or a helper doing so); that is no longer the case"
                           % ("native call" if ident.startswith("c:") else "exit", kind, what), instance=inst)
@@ -1411,9 +1408,9 @@ def analyse(chk):
         chk.guard(rule_count_prov, box["eng"])
     else:
         chk.errors.append("rule_guards: not run because the ctypes engine failed")
-    chk.floor("ffi", 90, "80 direct + 23 indirect call sites, 7 of them MPI-only (unchecked)")
+    chk.floor("ffi", 100, "80 direct + 23 indirect call sites, all with a parsed prototype (MPI FFT sources parsed with stub headers)")
     chk.floor("ffi-callback", 6, "GTOcontract_* handed to GTOeval_sph_drv in sdmx_slow/frac_lapl")
-    chk.floor("len-agree", 36, "13 instantiable settings classes x 3 accessors + component order")
+    chk.floor("len-agree", 48, "14 instantiable settings classes x 3 accessors + component order")
     chk.floor("validate", 14, "dots/specs/params roles of FracLapl + 4 NLDF classes")
     chk.floor("param-guards", 29, "frozen table of 30 guarded parameter names")
     chk.floor("dispatch", 24, "multi-arm string ladders in the six anchored modules")
@@ -1426,7 +1423,7 @@ def analyse(chk):
         "a component settings object obeys len-agree itself (checked per class)",
     ]
     chk.not_decided += ["out-of-bounds freedom of the C loops themselves (needs value ranges)",
-                        "ctypes calls in ciderpress/gpaw and the MPI-only C sources (no mpi.h to parse them)"]
+                        "ctypes calls in ciderpress/gpaw; C sources that need Python.h (pwutil/gpaw_interface.c, nldf_fft_mpi.c)"]
 
 
 def mutants(tree):
@@ -1497,6 +1494,16 @@ def mutants(tree):
         Mutant("reject: rho_mult no longer validated", ST,
                '        if self.rho_mult not in ALLOWED_RHO_MULTS:\n            raise ValueError("Unsupported rho_mult")\n',
                "", expect="param-guards"),
+        Mutant("len: SDMXFull normalizer walks the l0 terms twice", ST,
+               "            for n, rdr in self.iterate_l1_terms(ratio):\n                try:\n                    u = known_dict",
+               "            for n, rdr in self.iterate_l0_terms(ratio):\n                try:\n                    u = known_dict",
+               expect="len-agree"),
+        Mutant("len: SDMXFull n1dterms counts the wrong column", ST, "return self._get_num_feat(3)", "return self._get_num_feat(2)",
+               expect="len-agree"),
+        Mutant("len: SDMXFull generator yields the d-terms twice", ST,
+               "        for i in range(v1[1]):\n            yield v0[i], True\n\n    def iterate_l1_terms",
+               "        for i in range(v1[1]):\n            yield v0[i], True\n            yield v0[i], True\n\n    def iterate_l1_terms",
+               expect="len-agree"),
         # ---- validate
         Mutant("validate: drop a _check_specs call (VI l1 specs -> l0 only)", ST,
                "        self._check_specs(self.l0_feat_specs, ALLOWED_I_SPECS_L0)\n"
@@ -1558,9 +1565,18 @@ def mutants(tree):
         Mutant("guards: offset + nalpha <= stride weakened to nalpha <= stride", LC,
                "        assert offset + nalpha <= stride\n", "        assert nalpha <= stride\n", expect="guards"),
         # ---- count-prov
-        Mutant("count: stride differs from the allocated dimension (qg branch)", PL,
-               "                ctypes.c_int(arg_g.size),\n                ctypes.c_int(self.nalpha),",
-               "                ctypes.c_int(self.nalpha),\n                ctypes.c_int(self.nalpha),", expect="count-prov"),
+        Mutant("count: global exponent count passed for a buffer sized by the local count", PL,
+               "                ctypes.c_int(arg_g.size),\n                ctypes.c_int(nalpha),\n            )\n            return p, dp",
+               "                ctypes.c_int(arg_g.size),\n                ctypes.c_int(self.nalpha),\n            )\n            return p, dp",
+               expect="count-prov"),
+        Mutant("count: grid stride replaced by the exponent count (qg branch)", PL,
+               "                ctypes.c_int(arg_g.size),\n                ctypes.c_int(nalpha),\n            )\n            return p, dp",
+               "                ctypes.c_int(self.nalpha),\n                ctypes.c_int(nalpha),\n            )\n            return p, dp",
+               expect="count-prov"),
+        Mutant("guards: relation weakened inside a merged assert", LC,
+               "        assert offset + nalpha <= stride\n", "        assert offset <= stride and nalpha <= stride\n", expect="guards"),
+        Mutant("guards: contiguity test turned into a disjunction with something else", PW,
+               "    assert ylm_lg.flags.c_contiguous\n", "    assert ylm_lg.flags.c_contiguous or ylm_lg.ndim == 2\n", expect="guards"),
     ]
 
 
